@@ -151,6 +151,9 @@ def check(ctx, replay=None):
     # a policy of several groups that together exceed the kernel's 4096 instructions, the probe syscall denied by the last group: the
     # kernel refuses the program (an error, nothing to validate); nil is only admissible with every thread under the WHOLE policy
     work += [{"n": n, "flags": fl, "seed": ctx.seed * 19 + n, "spawns": 2, "oversize": True} for n in (1, 4, 16) for fl in (1, 3, 0)]
+    # calls that overlap (Loader!OtherLoad): while the recorded load is parked at the installation point another wired thread loads another
+    # policy with another flag word; a thread-sync that the kernel then refuses is an error (nothing to validate), nil is judged by the statement
+    work += [{"n": n, "flags": fl, "seed": ctx.seed * 23 + n, "spawns": 2, "overlap": True, "overlap_flags": of} for n in (1, 4, 16) for fl in (1, 3, 0) for of in (0, 2)]
     results = lf.run_many(lambda c: (c, run_cfg(binary, c)), work, workers=6)
     rows = []
     nrec = 0
@@ -161,7 +164,7 @@ def check(ctx, replay=None):
             ctx.skip("recorder failed: " + err)
             continue
         if obs["result"] != "nil":
-            if (cfg.get("divergent") or cfg.get("block")) and cfg["flags"] & 1:
+            if (cfg.get("divergent") or cfg.get("block") or cfg.get("overlap") or cfg.get("oversize")) and (cfg["flags"] & 1 or cfg.get("oversize")):
                 ndiv += 1     # refused thread-sync / unavailable seccomp(2) reported as an error: admissible, nothing to validate
                 continue
             # C10 speaks about loads that return nil; a load that fails is judged by C09 / C11 (not by this check)
@@ -173,6 +176,13 @@ def check(ctx, replay=None):
                 ctx.violation("an unprivileged load without a requested no_new_privs bit returned nil: %s" % b, {"config": cfg, "recording": obs,
                               "admissible": "an error (the kernel refuses), or nil with the statement's coverage", "how": "./check C10 --replay <this file>"})
             ctx.cov["evaluations"] += sum(len(t["probes"]) for t in obs["threads"])
+            continue
+        if cfg.get("overlap"):
+            ctx.cov["evaluations"] += sum(len(t["probes"]) for t in obs["threads"])
+            ctx.cov["recordings_with_an_overlapping_load"] = ctx.cov.get("recordings_with_an_overlapping_load", 0) + 1
+            for b in direct_judge(obs, cfg["flags"])[:2]:
+                ctx.violation("a load that overlapped with another thread's load (flags %#x) returned nil: %s" % (cfg["overlap_flags"], b), {"config": cfg, "recording": obs,
+                              "admissible": "with thread-sync: an error, or nil with every thread filtered; without it only the loading thread is filtered", "how": "./check C10 --replay <this file>"})
             continue
         if cfg.get("oversize"):
             ctx.cov["evaluations"] += sum(len(t["probes"]) for t in obs["threads"])
